@@ -31,7 +31,11 @@ EXTENDS Naturals, Integers, Sequences, FiniteSets, TLC
 RECURSIVE Flat(_)
 Flat(ss) == IF ss = <<>> THEN <<>> ELSE Head(ss) \o Flat(Tail(ss))
 
-SeqMap(F(_), s) == [i \in 1..Len(s) |-> F(s[i])]
+\* TLC keeps a function constructor [i \in S |-> e] LAZY (FcnLambdaValue): every application
+\* re-evaluates e.  Chains of such constructors that read their predecessor twice per element (TblPut,
+\* SwapDefers, ...) cost 2^depth.  Mat materialises a sequence-shaped function once.
+Mat(f) == f \o <<>>
+SeqMap(F(_), s) == Mat([i \in 1..Len(s) |-> F(s[i])])
 SeqFlatMap(F(_), s) == Flat([i \in 1..Len(s) |-> F(s[i])])
 Count(s, x) == Cardinality({i \in 1..Len(s) : s[i] = x})
 Range(s) == {s[i] : i \in 1..Len(s)}
@@ -39,14 +43,18 @@ BagEq(a, b) == Len(a) = Len(b) /\ \A i \in 1..Len(a) : Count(a, a[i]) = Count(b,
 \* first occurrences, in order
 Dedup(s) == SelectSeq([i \in 1..Len(s) |-> <<i, s[i]>>],
                       LAMBDA p : \A j \in 1..(p[1] - 1) : s[j] # p[2])
-DedupVals(s) == LET d == Dedup(s) IN [i \in 1..Len(d) |-> d[i][2]]
+DedupVals(s) == LET d == Dedup(s) IN Mat([i \in 1..Len(d) |-> d[i][2]])
 Max2(a, b) == IF a >= b THEN a ELSE b
 Min2(a, b) == IF a <= b THEN a ELSE b
 Take(s, n) == SubSeq(s, 1, Min2(n, Len(s)))
 Drop(s, n) == SubSeq(s, Min2(n, Len(s)) + 1, Len(s))
 
 RECURSIVE FoldL(_, _, _)
-FoldL(F(_, _), acc, s) == IF s = <<>> THEN acc ELSE FoldL(F, F(acc, Head(s)), Tail(s))
+\* (TLC caches LET definitions but re-evaluates plain argument expressions at every use: an
+\* accumulator that the callee reads k times would cost k^depth -- so every accumulator is LET-bound
+\* before it is passed down; the same idiom is used in all recursive operators of this module)
+FoldL(F(_, _), acc, s) == IF s = <<>> THEN acc
+                          ELSE LET a2 == F(acc, Head(s))  t2 == Tail(s) IN FoldL(F, a2, t2)
 
 -----------------------------------------------------------------------------
 (* THE CLOSED CLOSURE VOCABULARY -- defined identically in Rust (hv_dfir/src/vocab.rs).
@@ -164,14 +172,14 @@ CrossAll(l, r) == Flat([i \in 1..Len(l) |-> [j \in 1..Len(r) |-> <<l[i], r[j]>>]
 TblHas(t, k) == \E i \in 1..Len(t) : t[i][1] = k
 TblGet(t, k) == t[CHOOSE i \in 1..Len(t) : t[i][1] = k][2]
 TblPut(t, k, v) == IF TblHas(t, k)
-                   THEN [i \in 1..Len(t) |-> IF t[i][1] = k THEN <<k, v>> ELSE t[i]]
+                   THEN Mat([i \in 1..Len(t) |-> IF t[i][1] = k THEN <<k, v>> ELSE t[i]])
                    ELSE Append(t, <<k, v>>)
 
 \* multiset_delta: emit the occurrences exceeding the previous tick's count, in order
 MsDelta(prev, cur) ==
     LET idx == SelectSeq([i \in 1..Len(cur) |-> i],
                          LAMBDA i : Cardinality({j \in 1..i : cur[j] = cur[i]}) > Count(prev, cur[i]))
-    IN [i \in 1..Len(idx) |-> cur[idx[i]]]
+    IN Mat([i \in 1..Len(idx) |-> cur[idx[i]]])
 
 -----------------------------------------------------------------------------
 (* Per-operator state *)
@@ -228,15 +236,16 @@ TickEnd(nd, s) ==
 RECURSIVE UniqueRun(_, _, _)
 UniqueRun(seen, s, out) ==
     IF s = <<>> THEN <<seen, out>>
-    ELSE IF Head(s) \in seen THEN UniqueRun(seen, Tail(s), out)
-         ELSE UniqueRun(seen \cup {Head(s)}, Tail(s), Append(out, Head(s)))
+    ELSE LET t2 == Tail(s) IN
+         IF Head(s) \in seen THEN UniqueRun(seen, t2, out)
+         ELSE LET s2 == seen \cup {Head(s)}  o2 == Append(out, Head(s)) IN UniqueRun(s2, t2, o2)
 
 RECURSIVE ScanRun(_, _, _, _)
 ScanRun(f, acc, s, out) ==       \* acc: NONE or Some(a)
     IF s = <<>> \/ acc = NONE THEN <<acc, out>>
     ELSE LET r == ScanStep(f, acc[1], Head(s))
          IN IF r = <<>> THEN <<NONE, out>>
-            ELSE ScanRun(f, Some(r[1]), Tail(s), Append(out, r[2]))
+            ELSE LET a2 == Some(r[1])  t2 == Tail(s)  o2 == Append(out, r[2]) IN ScanRun(f, a2, t2, o2)
 
 RECURSIVE KeyedRun(_, _, _, _)
 KeyedRun(isFold, f, t, s) ==
@@ -244,19 +253,23 @@ KeyedRun(isFold, f, t, s) ==
     ELSE LET k == Head(s)[1]  v == Head(s)[2]
              nv == IF isFold THEN AccStep(f, IF TblHas(t, k) THEN TblGet(t, k) ELSE AccInit(f), v)
                    ELSE IF TblHas(t, k) THEN RedStep(f, TblGet(t, k), v) ELSE v
-         IN KeyedRun(isFold, f, TblPut(t, k, nv), Tail(s))
+             nt == TblPut(t, k, nv)
+             t2 == Tail(s)
+         IN KeyedRun(isFold, f, nt, t2)
 
 RECURSIVE RefMapRun(_, _, _, _)
 RefMapRun(f, s, cell, out) ==
     IF s = <<>> THEN <<out, cell>>
-    ELSE LET r == RefMapFn(f, Head(s), cell) IN RefMapRun(f, Tail(s), r[2], Append(out, r[1]))
+    ELSE LET r == RefMapFn(f, Head(s), cell)  t2 == Tail(s)  c2 == r[2]  o2 == Append(out, r[1])
+         IN RefMapRun(f, t2, c2, o2)
 
 \* state::<Max>: items that strictly raise the maximum pass; result <<new max, passed items>>
 RECURSIVE StateMaxRun(_, _, _)
 StateMaxRun(m, s, out) ==
     IF s = <<>> THEN <<m, out>>
-    ELSE IF Head(s) > m THEN StateMaxRun(Head(s), Tail(s), Append(out, Head(s)))
-         ELSE StateMaxRun(m, Tail(s), out)
+    ELSE LET t2 == Tail(s) IN
+         IF Head(s) > m THEN LET m2 == Head(s)  o2 == Append(out, Head(s)) IN StateMaxRun(m2, t2, o2)
+         ELSE StateMaxRun(m, t2, out)
 
 RECURSIVE SetToSeqP(_)
 SetToSeqP(S) == IF S = {} THEN <<>> ELSE LET x == CHOOSE y \in S : TRUE IN <<x>> \o SetToSeqP(S \ {x})
@@ -343,7 +356,7 @@ Step(nd, ins, s, tick, ext, cells) ==
       [] op = "sort_by_key" ->
             Res(<<SortSeq(ins[1], LAMBDA a, b : SortKey(nd.fn, a) < SortKey(nd.fn, b))>>, s)
       [] op = "enumerate" ->
-            Res(<<[i \in 1..Len(ins[1]) |-> <<s + i - 1, ins[1][i]>>]>>, s + Len(ins[1]))
+            Res(<<Mat([i \in 1..Len(ins[1]) |-> <<s + i - 1, ins[1][i]>>])>>, s + Len(ins[1]))
       [] op = "zip" ->
             LET l == s[1] \o ins[1]
                 r == s[2] \o ins[2]
@@ -417,7 +430,7 @@ NoDelay(nd) == ~IsDefer(nd)
    consumers run -- C25). *)
 
 NodeIns(P, vals, n) ==
-    LET nd == P.nodes[n] IN [i \in 1..Len(nd.in) |-> vals[nd.in[i][1]][nd.in[i][2]]]
+    LET nd == P.nodes[n] IN Mat([i \in 1..Len(nd.in) |-> vals[nd.in[i][1]][nd.in[i][2]]])
 
 \* evaluate node n, return the updated <<vals, sts>>
 EvalNode(P, n, vals, sts, tick, ext) ==
@@ -425,9 +438,9 @@ EvalNode(P, n, vals, sts, tick, ext) ==
         cells == [i \in 1..Len(nd.refs) |-> vals[nd.refs[i]][1]]
         r == Step(nd, NodeIns(P, vals, n), sts[n], tick, ext, cells)
         v1 == [vals EXCEPT ![n] = r.o]
-        v2 == [m \in 1..Len(P.nodes) |->
+        v2 == Mat([m \in 1..Len(P.nodes) |->
                  IF \E i \in 1..Len(nd.refs) : nd.refs[i] = m
-                 THEN <<r.c[CHOOSE i \in 1..Len(nd.refs) : nd.refs[i] = m]>> ELSE v1[m]]
+                 THEN <<r.c[CHOOSE i \in 1..Len(nd.refs) : nd.refs[i] = m]>> ELSE v1[m]])
     IN <<IF Len(nd.refs) = 0 THEN v1 ELSE v2, [sts EXCEPT ![n] = r.s]>>
 
 (* Loops (C26).  P.loops[l] = [parent, first, last, root]: nodes first..last are the block of
@@ -446,15 +459,15 @@ DefersOf(P, l) == {n \in 1..Len(P.nodes) : IsDefer(P.nodes[n]) /\ P.nodes[n].lp 
 
 \* swap the double buffers of the given defer nodes
 SwapDefers(sts, ds) ==
-    [n \in DOMAIN sts |-> IF n \in ds THEN [buf |-> sts[n].back, back |-> sts[n].buf] ELSE sts[n]]
+    Mat([n \in DOMAIN sts |-> IF n \in ds THEN [buf |-> sts[n].back, back |-> sts[n].buf] ELSE sts[n]])
 
 \* the producer of defer node d ran (in this pass) and wrote `items`: clear + fill its send buffer
 \* (done for every defer whose producer node was evaluated in the pass over a..b)
 WriteDefers(P, vals, sts, l) ==
-    [n \in DOMAIN sts |->
+    Mat([n \in DOMAIN sts |->
         IF IsDefer(P.nodes[n]) /\ P.nodes[P.nodes[n].din[1]].lp = l
         THEN [sts[n] EXCEPT !.buf = vals[P.nodes[n].din[1]][P.nodes[n].din[2]]]
-        ELSE sts[n]]
+        ELSE sts[n]])
 
 EmptyAcc(P, l) == [n \in P.loops[l].first..P.loops[l].last |-> [p \in 1..3 |-> <<>>]]
 RECURSIVE RunRange(_, _, _, _, _, _, _, _, _)
@@ -531,13 +544,13 @@ TickRun(P, sts, tick, ext) ==
         v0 == [n \in 1..N |-> [p \in 1..3 |-> <<>>]]
         r == RunRange(P, 1, N, 0, 1, v0, sts, tick, ext)
         \* producers outside loops wrote their send buffers
-        s1 == [n \in 1..N |->
+        s1 == Mat([n \in 1..N |->
                  IF IsDefer(P.nodes[n]) /\ P.nodes[P.nodes[n].din[1]].lp = 0
                  THEN [r[2][n] EXCEPT !.buf = r[1][P.nodes[n].din[1]][P.nodes[n].din[2]]]
-                 ELSE r[2][n]]
+                 ELSE r[2][n]])
         wake == WakeAfter(P, s1)
         s2 == SwapDefers(s1, TickLevelDefers(P))
-        s3 == [n \in 1..N |-> TickEnd(P.nodes[n], s2[n])]
+        s3 == Mat([n \in 1..N |-> TickEnd(P.nodes[n], s2[n])])
         sinkNode(k) == CHOOSE n \in 1..N : P.nodes[n].op = "sink" /\ P.nodes[n].k = k
     IN [outs |-> [k \in 1..P.nsink |-> r[1][sinkNode(k)][1]], sts |-> s3, wake |-> wake]
 
